@@ -1,3 +1,217 @@
 import Sheens.ES
+import Sheens.Proofs.ProgPlain
 
-/-! Property C09 — theorems (in progress). -/
+/-!
+# Property C09 — state is plain data: persisting and restoring a machine is unobservable
+
+`canonV` is the JSON write/read of a Go value as the engine sees it (`json.Marshal` then
+`json.Unmarshal` into `interface{}`): numeric Go types become float64, a `match.Bindings` map becomes
+a plain map, anything else is not serialisable.  On plain values it is the identity; the engine
+(repaired tree) only ever builds plain states from plain inputs, so a write/read at any message
+boundary changes nothing.
+-/
+
+namespace Sheens.C09
+
+mutual
+/-- hereditarily JSON-plain: what `json.Unmarshal` into `interface{}` produces -/
+def plainV : V → Bool
+  | .null | .bool _ | .num _ | .str _ => true
+  | .arr xs => plainList xs
+  | .obj kvs => plainKvs kvs
+  | .int _ | .bobj _ | .other _ => false
+def plainList : List V → Bool
+  | [] => true
+  | x :: xs => plainV x && plainList xs
+def plainKvs : List (String × V) → Bool
+  | [] => true
+  | (_, v) :: rest => plainV v && plainKvs rest
+end
+
+mutual
+/-- the JSON round trip on a Go-typed value -/
+def canonV : V → Option V
+  | .null => some .null
+  | .bool b => some (.bool b)
+  | .num q => some (.num q)
+  | .str s => some (.str s)
+  | .int i => some (.num i)
+  | .arr xs => (canonList xs).map V.arr
+  | .obj kvs => (canonKvs kvs).map V.obj
+  | .bobj kvs => (canonKvs kvs).map V.obj
+  | .other _ => none
+def canonList : List V → Option (List V)
+  | [] => some []
+  | x :: xs => match canonV x, canonList xs with
+    | some y, some ys => some (y :: ys)
+    | _, _ => none
+def canonKvs : List (String × V) → Option (List (String × V))
+  | [] => some []
+  | (k, v) :: rest => match canonV v, canonKvs rest with
+    | some y, some ys => some ((k, y) :: ys)
+    | _, _ => none
+end
+
+def plainBs (bs : Bs) : Prop := plainKvs bs = true
+def plainState (st : State) : Prop := ∀ bs, st.bs = some bs → plainBs bs
+def plainMsgs (msgs : List V) : Prop := ∀ m ∈ msgs, plainV m = true
+
+/-- an action or guard that returns JSON-representable values when given plain bindings
+    (the ECMAScript interpreter canonicalises what a script returns and emits) -/
+def PlainAction (a : ActionF) : Prop :=
+  ∀ bs, plainBs (copyB bs) → ∀ bo em, (a bs).exe = some (bo, em) →
+    plainMsgs em ∧ ∀ b, bo = some b → plainBs b
+
+def PlainSpec (s : Spec) : Prop :=
+  ∀ name n, (name, n) ∈ s.nodes →
+    (∀ a, n.action = some a → PlainAction a) ∧
+    (∀ br, n.branches = some br → ∀ b ∈ br.branches, ∀ g, b.guard = some g → PlainAction g)
+
+mutual
+theorem canonV_id : ∀ (v : V), plainV v = true → canonV v = some v
+  | .null, _ => rfl
+  | .bool _, _ => rfl
+  | .num _, _ => rfl
+  | .str _, _ => rfl
+  | .arr xs, h => by
+    have h' : plainList xs = true := by simpa only [plainV] using h
+    simp only [canonV, canonList_id xs h', Option.map_some]
+  | .obj kvs, h => by
+    have h' : plainKvs kvs = true := by simpa only [plainV] using h
+    simp only [canonV, canonKvs_id kvs h', Option.map_some]
+  | .int _, h => by simp [plainV] at h
+  | .bobj _, h => by simp [plainV] at h
+  | .other _, h => by simp [plainV] at h
+theorem canonList_id : ∀ (xs : List V), plainList xs = true → canonList xs = some xs
+  | [], _ => rfl
+  | x :: xs, h => by
+    simp only [plainList, Bool.and_eq_true] at h
+    simp only [canonList, canonV_id x h.1, canonList_id xs h.2]
+theorem canonKvs_id : ∀ (kvs : List (String × V)), plainKvs kvs = true → canonKvs kvs = some kvs
+  | [], _ => rfl
+  | (k, v) :: rest, h => by
+    simp only [plainKvs, Bool.and_eq_true] at h
+    simp only [canonKvs, canonV_id v h.1, canonKvs_id rest h.2]
+end
+
+/-- The round trip is the identity on plain values. -/
+theorem canon_id_on_plain (v : V) (h : plainV v = true) : canonV v = some v :=
+  canonV_id v h
+
+/-- … hence on plain states: the state read back is the state written. -/
+def roundTrip (st : State) : Option State :=
+  match st.bs with
+  | none => some st
+  | some bs => (canonKvs bs).map (fun b => { st with bs := some b })
+
+theorem roundTrip_id (st : State) (h : plainState st) : roundTrip st = some st := by
+  obtain ⟨node, bs⟩ := st
+  cases bs with
+  | none => rfl
+  | some b =>
+    have hb : plainKvs b = true := h b rfl
+    simp only [roundTrip, canonKvs_id b hb, Option.map_some]
+
+/-! ### plainness as an instance of the generic value predicates of `Sheens/Proofs/PlainLemmas.lean` -/
+
+/-- "is plain", as a `Prop`-valued predicate -/
+def IsPlain (v : V) : Prop := plainV v = true
+
+theorem plainList_iff (xs : List V) : plainList xs = true ↔ ∀ x ∈ xs, IsPlain x := by
+  induction xs with
+  | nil => simp [plainList]
+  | cons x xs ih => simp only [plainList, Bool.and_eq_true, ih, List.forall_mem_cons, IsPlain]
+
+theorem plainKvs_iff (kvs : List (String × V)) : plainKvs kvs = true ↔ Plain.AllBs IsPlain kvs := by
+  unfold Plain.AllBs
+  induction kvs with
+  | nil => simp [plainKvs]
+  | cons kv rest ih =>
+    obtain ⟨k, v⟩ := kv
+    simp only [plainKvs, Bool.and_eq_true, ih, List.forall_mem_cons, IsPlain]
+
+theorem isPlain_valPred : Plain.ValPred IsPlain where
+  null := rfl
+  bool _ := rfl
+  num _ := rfl
+  str _ := rfl
+  arr xs := by rw [← plainList_iff]; simp only [IsPlain, plainV]
+  obj kvs := by
+    show _ ↔ Plain.AllBs IsPlain kvs
+    rw [← plainKvs_iff]; simp only [IsPlain, plainV]
+
+theorem plainBs_iff (bs : Bs) : plainBs bs ↔ Plain.AllBs IsPlain bs := plainKvs_iff bs
+
+theorem plainState_iff (st : State) : plainState st ↔ Plain.PredState IsPlain st := by
+  unfold plainState Plain.PredState
+  exact ⟨fun h bs hb => (plainBs_iff bs).mp (h bs hb), fun h bs hb => (plainBs_iff bs).mpr (h bs hb)⟩
+
+theorem plainAction_pred {a : ActionF} (h : PlainAction a) : Plain.PredAction IsPlain a := by
+  intro bs hbs bo em hx
+  obtain ⟨h1, h2⟩ := h bs ((plainBs_iff _).mpr hbs) bo em hx
+  exact ⟨h1, fun b hb => (plainBs_iff b).mp (h2 b hb)⟩
+
+theorem pred_plainAction {a : ActionF} (h : Plain.PredAction IsPlain a) : PlainAction a := by
+  intro bs hbs bo em hx
+  obtain ⟨h1, h2⟩ := h bs ((plainBs_iff _).mp hbs) bo em hx
+  exact ⟨h1, fun b hb => (plainBs_iff b).mpr (h2 b hb)⟩
+
+theorem plainSpec_pred {s : Spec} (h : PlainSpec s) : Plain.PredSpec IsPlain s := by
+  intro name n hn
+  obtain ⟨h1, h2⟩ := h name n hn
+  exact ⟨fun a ha => plainAction_pred (h1 a ha),
+    fun br hbr b hb g hg => plainAction_pred (h2 br hbr b hb g hg)⟩
+
+theorem predStride_plain {sd : Stride} (h : Plain.PredStride IsPlain sd) :
+    (∀ t, sd.to = some t → plainState t) ∧ plainMsgs sd.emitted :=
+  ⟨fun t ht => (plainState_iff t).mpr (h.1 t ht), h.2⟩
+
+/-- The matcher only binds parts of the message and numbers: plain in, plain out. -/
+theorem match_preserves_plain (n : Nat) (p f : V) (bs : Bs) (rs : List Bs)
+    (hf : plainV f = true) (hb : plainBs bs) (h : matchF n p f bs = .ok rs) : ∀ r ∈ rs, plainBs r :=
+  fun r hr => (plainBs_iff r).mpr
+    (Plain.matchF_pred isPlain_valPred hf ((plainBs_iff bs).mp hb) h r hr)
+
+/-- Every state a step produces from a plain state and a plain message is plain. -/
+theorem step_preserves_plain (s : Spec) (hs : PlainSpec s) (st : State) (pending : Option V)
+    (hst : plainState st) (hp : ∀ m, pending = some m → plainV m = true)
+    (sd : Stride) (h : (step s st pending).stride = some sd) :
+    (∀ t, sd.to = some t → plainState t) ∧ plainMsgs sd.emitted :=
+  predStride_plain
+    (Plain.step_pred isPlain_valPred (plainSpec_pred hs) ((plainState_iff st).mp hst) hp h)
+
+/-- … and so is every state of a walk, including the error states with their diagnostic bindings. -/
+theorem walk_preserves_plain (s : Spec) (hs : PlainSpec s) (st : State) (msgs : List V) (l : Option Int)
+    (bp : State → Bool) (hst : plainState st) (hm : plainMsgs msgs) :
+    ∀ sd ∈ (walk s st msgs l bp).strides, (∀ t, sd.to = some t → plainState t) ∧ plainMsgs sd.emitted :=
+  fun sd hsd => predStride_plain
+    (Plain.walk_pred isPlain_valPred (plainSpec_pred hs) l bp ((plainState_iff st).mp hst) hm sd hsd)
+
+/-- Persisting and restoring at a message boundary is unobservable: continuing from the state read
+    back is continuing from the in-memory state. -/
+theorem persist_unobservable (s : Spec) (hs : PlainSpec s) (st : State) (batch₁ batch₂ : List V)
+    (l₁ l₂ : Option Int) (bp : State → Bool) (hst : plainState st) (hm : plainMsgs batch₁) :
+    let mid := finalState st (walk s st batch₁ l₁ bp)
+    ∃ mid', roundTrip mid = some mid' ∧ walk s mid' batch₂ l₂ bp = walk s mid batch₂ l₂ bp := by
+  intro mid
+  have hmid : plainState mid :=
+    (plainState_iff mid).mpr
+      (Plain.finalState_pred isPlain_valPred (plainSpec_pred hs) l₁ bp ((plainState_iff st).mp hst) hm)
+  exact ⟨mid, roundTrip_id mid hmid, rfl⟩
+
+/-- The DSL's ECMAScript actions are plain actions when their literals are plain. -/
+def plainOp : Op → Bool
+  | .set _ v => plainV v
+  | .emit v => plainV v
+  | .setnested _ _ v => plainV v
+  | .rejectIf _ v => plainV v
+  | _ => true
+
+theorem plainOp_pred {o : Op} (h : plainOp o = true) : Plain.PredOp IsPlain o := by
+  cases o <;> first | exact h | trivial
+
+theorem prog_is_plain_action (p : Prog) (h : p.ops.all plainOp = true) : PlainAction p.run :=
+  pred_plainAction
+    (Plain.prog_pred isPlain_valPred p (fun o ho => plainOp_pred (List.all_eq_true.mp h o ho)))
+
+end Sheens.C09
